@@ -223,24 +223,33 @@ Definition ids_disjoint : Prop := forall h r, In h (ss_handlers ss) -> In r (ss_
 (** what the time stepper relies on from Integrator::stepTo (for AbstractIntegratorRep these are the C19 theorems
     returned_time_le_earliest_pending, report_sched_final_stops_exact, time_monotone and the order of the tests in
     stepTo: a report time that has been reached wins over a scheduled-event time) *)
-Definition use_ok (u:iuse) : Prop :=
+Definition use_core (u:iuse) : Prop :=
   let a := u_ans u in
-  u_tcur u <= a_t a /\ a_t a <= a_tadv a /\ u_tadv u <= a_tadv a /\
+  u_tcur u <= a_t a /\ a_t a <= a_tadv a /\
   (a_status a = ReachedScheduledEvent ->
      Ieq (Some (a_t a)) (u_event u) /\ a_tadv a == a_t a /\ Ilt (u_event u) (u_report u)) /\
   (a_status a = ReachedReportTime -> Ile (Some (a_t a)) (u_report u)).
+(** the advanced time never goes back (AbstractIntegratorRep: C19 time_monotone; NOT CPodesIntegratorRep) *)
+Definition use_mono (u:iuse) : Prop := u_tadv u <= a_tadv (u_ans u).
+Definition use_ok (u:iuse) : Prop := use_core u /\ use_mono u.
 
 Lemma status_eqb_eq a b : status_eqb a b = true <-> a = b.
 Proof. destruct a, b; simpl; split; intros; try discriminate; auto. Qed.
 
+Lemma use_coreb_sound u : use_coreb u = true -> use_core u.
+Proof.
+  unfold use_coreb, use_core. intros H. cbv zeta in *. ibool.
+  split; [auto|]. split; [auto|]. split.
+  - intros E. repeat match goal with X : (if status_eqb _ _ then _ else _) = true |- _ => rewrite E in X; cbn [status_eqb] in X end.
+    ibool. auto.
+  - intros E. repeat match goal with X : (if status_eqb _ _ then _ else _) = true |- _ => rewrite E in X; cbn [status_eqb] in X end.
+    ibool. auto.
+Qed.
 Lemma use_okb_sound u : use_okb u = true -> use_ok u.
 Proof.
-  unfold use_okb, use_ok. intros H. cbv zeta in *. ibool.
-  split; [auto|]. split; [auto|]. split; [auto|]. split.
-  - intros E. repeat match goal with X : (if status_eqb _ _ then _ else _) = true |- _ => rewrite E in X; cbn [status_eqb] in X end.
-    ibool. auto.
-  - intros E. repeat match goal with X : (if status_eqb _ _ then _ else _) = true |- _ => rewrite E in X; cbn [status_eqb] in X end.
-    ibool. auto.
+  unfold use_okb, use_ok. intros H. apply andb_true_iff in H. destruct H as [A B]. split.
+  - apply use_coreb_sound; auto.
+  - unfold use_monob in B. unfold use_mono. ibool. auto.
 Qed.
 
 (** entries produced by the dispatch helpers *)
@@ -302,13 +311,13 @@ Definition report_good (uses:list iuse) (k:call S) : Prop :=
 
 Lemma body_good time s a l s2 stop : ids_disjoint ->
   let u := MKUSE time s a in
-  BODY time s u = (l, s2, stop) -> use_ok u ->
+  BODY time s u = (l, s2, stop) -> use_core u ->
   forall k, In k l -> sched_good [u] k /\ report_good [u] k /\
                       (k_cause k = CScheduled \/ k_cause k = CReport \/ k_cause k = CTriggered).
 Proof.
   intros Hdis u E Hok k Hk.
   destruct (mk_use_fields time s a) as [F1 [F2 [F3 [F4 [F5 [F6 F7]]]]]]. fold u in F1, F2, F3, F4, F5, F6, F7.
-  destruct Hok as [O1 [O2 [O3 [O4 O5]]]]. unfold ts_body in E. rewrite F3 in *.
+  destruct Hok as [O1 [O2 [O4 O5]]]. unfold ts_body in E. rewrite F3 in *.
   destruct (a_status a) eqn:St.
   - (* ReachedReportTime *)
     inversion E; subst l; clear E.
@@ -375,7 +384,7 @@ Qed.
 
 Lemma loop_good : ids_disjoint -> forall orc reportAll time s log uses st s' rest log' uses',
   LOOP reportAll time s orc log uses = TSRet S st s' rest log' uses' ->
-  (forall u, In u uses' -> use_ok u) ->
+  (forall u, In u uses' -> use_core u) ->
   (forall k, In k log -> sched_good uses k /\ report_good uses k) ->
   (forall k, In k log' -> sched_good uses' k /\ report_good uses' k).
 Proof.
@@ -383,7 +392,7 @@ Proof.
   - destruct (ts_over s); inversion E; subst; auto.
   - destruct (ts_over s); [inversion E; subst; auto|].
     destruct (BODY time s (MKUSE time s a)) as [[l s2] stop] eqn:Eb.
-    assert (Hstep: forall usx, (forall u, In u (uses ++ [MKUSE time s a]) -> In u usx) -> use_ok (MKUSE time s a) ->
+    assert (Hstep: forall usx, (forall u, In u (uses ++ [MKUSE time s a]) -> In u usx) -> use_core (MKUSE time s a) ->
               forall k, In k (log ++ l) -> sched_good usx k /\ report_good usx k).
     { intros usx Hsub Huse k Hk. apply in_app_iff in Hk. destruct Hk as [Hk|Hk].
       - destruct (Hg k Hk). split; [eapply sched_good_mono|eapply report_good_mono]; eauto;
@@ -402,7 +411,7 @@ Qed.
     to that handler's own getNextEventTime, evaluated at the time the integrator was started from *)
 Lemma scheduled_called_exactly_at_time reportAll time s orc st s' rest log uses : ids_disjoint ->
   ts_stepTo S cf subs thandlers flow reportAll time s orc = TSRet S st s' rest log uses ->
-  (forall u, In u uses -> use_ok u) ->
+  (forall u, In u uses -> use_core u) ->
   forall k, In k log -> k_cause k = CScheduled ->
   exists h u, In h (ss_handlers ss) /\ h_id h = k_id k /\ In u uses /\
      Ieq (h_next h (u_tcur u) (u_inclEv u)) (Some (k_time k)) /\
@@ -415,7 +424,7 @@ Qed.
 
 Lemma reporters_called_exactly_at_time reportAll time s orc st s' rest log uses : ids_disjoint ->
   ts_stepTo S cf subs thandlers flow reportAll time s orc = TSRet S st s' rest log uses ->
-  (forall u, In u uses -> use_ok u) ->
+  (forall u, In u uses -> use_core u) ->
   forall k, In k log -> k_cause k = CReport ->
   exists r u, In r (ss_reporters ss) /\ h_id r = k_id k /\ In u uses /\
      Ieq (h_next r (u_tcur u) (u_inclRep u)) (Some (k_time k)) /\
@@ -500,7 +509,7 @@ Proof.
   intros Hdis u E Hok [I1 [I2 [I3 [I4 I5]]]].
   destruct (mk_use_fields time s a) as [F1 [F2 [F3 _]]]. fold u in F1, F2, F3.
   destruct (body_times _ _ _ _ _ _ E) as [T1 [T2 [T3 T4]]]. rewrite F3 in *.
-  destruct Hok as [O1 [O2 [O3 [O4 _]]]]. rewrite F1, F2, F3 in *.
+  destruct Hok as [[O1 [O2 [O4 _]]] O3]. unfold use_mono in O3. rewrite F1, F2, F3 in *.
   assert (Hh: forall t, In t (htimes l) -> t = a_tadv a).
   { intros t Ht. unfold htimes in Ht. apply in_map_iff in Ht. destruct Ht as [k [<- Hk]]. apply filter_In in Hk. apply T1; tauto. }
   assert (Hr: forall t, In t (rtimes l) -> t == a_t a).
@@ -554,7 +563,7 @@ Qed.
 Lemma periodic_handler_called_at_multiples reportAll time s orc st s' rest log uses interval : ids_disjoint ->
   0 < interval ->
   ts_stepTo S cf subs thandlers flow reportAll time s orc = TSRet S st s' rest log uses ->
-  (forall u, In u uses -> use_ok u) ->
+  (forall u, In u uses -> use_core u) ->
   forall k h, In k log -> k_cause k = CScheduled -> In h (ss_handlers ss) -> h_id h = k_id k ->
   NoDup (map (@h_id S) (ss_handlers ss)) ->
   (forall t incl, h_next h t incl = Some (periodic_next interval t incl)) ->
